@@ -10,6 +10,7 @@ class Taint:
         self.cells = {}    # (fn name, alloca id) -> origin  (address-taken locals)
         self.sanitizers = set()
         self.propagators = {"strdup", "duplicate_string", "strcpy", "strncpy", "memcpy", "strcat"}
+        self.out_props = {}   # callee srcname -> (source argument, out-parameter argument): *out points into / is derived from source
         self._sinks = []
         self._stores = []
         self._work = []
@@ -78,6 +79,15 @@ class Taint:
                         for k in ks:
                             if k < g.nparams:
                                 self._mark(g, k, origin)
+                    if name in self.out_props and self.out_props[name][0] in ks and self.out_props[name][1] < len(u.a):
+                        dst = P.strip(f, u.a[self.out_props[name][1]])
+                        if isinstance(dst, int) and dst >= f.nparams and f.insts[dst].op == "alloca":
+                            ck = (f.name, dst)
+                            if ck not in self.cells:
+                                self.cells[ck] = origin
+                                for lu in f.users(dst):
+                                    if lu.op == "load":
+                                        self._mark(f, lu.id, origin)
                     if name in self.sanitizers:
                         continue
                     if name in self.propagators and u.ty:
